@@ -18,11 +18,23 @@ import (
 
 type c11Sess struct {
 	session.ManagedMuxSession
-	id    string
-	opens int
+	id        string
+	opens     int
+	unhealthy bool
 }
 
 func (s *c11Sess) Open() (net.Conn, error) { s.opens++; return nil, nil }
+
+// a registered session may be failing its health check at the moment an update is applied
+// (healthCheck flips Connected <-> Error without notifying anybody); it is still registered
+func (s *c11Sess) State() *session.MuxSessionInfo {
+	if s.unhealthy {
+		return &session.MuxSessionInfo{State: session.Error}
+	}
+	return &session.MuxSessionInfo{State: session.Connected}
+}
+func (s *c11Sess) IsClosed() bool   { return false }
+func (s *c11Sess) Describe() string { return "verif-session-" + s.id }
 
 var c11LastState *resolver.State
 var c11Updates int
@@ -61,7 +73,10 @@ func verifHarness_C11_endpoints() {
 			verifAction("add-session")
 			id := idNames[nextID]
 			nextID++
-			s := &c11Sess{id: id}
+			s := &c11Sess{id: id, unhealthy: verifChoose("health", 2) == 1}
+			if s.unhealthy {
+				verifReach("unhealthy-session-registered")
+			}
 			table[id] = s
 			objs[id] = s
 		} else {
